@@ -27,6 +27,8 @@ func decodeHuffman(state *inflate, output []byte, written int) (w int, err error
 				err = errInvalidLookBack
 			case errorNoOutOverflow:
 				err = errOutputOverflow
+			default:
+				err = errInvalidBlock
 			}
 			return written, err
 		}
